@@ -136,6 +136,7 @@ func (tx *Transaction) Commit(ctx context.Context, scope *ReferenceScope, expr p
 	tx.operationMutex.Lock()
 	defer tx.operationMutex.Unlock()
 
+	verifPoint("tx.commit.begin", "")
 	createdFiles, updatedFiles := tx.UncommittedViews.UncommittedFiles()
 
 	createFileInfo := make([]*FileInfo, 0, len(createdFiles))
@@ -146,6 +147,7 @@ func (tx *Transaction) Commit(ctx context.Context, scope *ReferenceScope, expr p
 			view, _ := tx.CachedViews.Get(fileInfo.IdentifiedPath())
 
 			fp, _ := view.FileInfo.Handler.FileForUpdate()
+			verifPoint("tx.commit.truncate", fileInfo.Path)
 			if err := fp.Truncate(0); err != nil {
 				return NewSystemError(err.Error())
 			}
@@ -153,11 +155,13 @@ func (tx *Transaction) Commit(ctx context.Context, scope *ReferenceScope, expr p
 				return NewSystemError(err.Error())
 			}
 
+			verifPoint("tx.commit.encode", fileInfo.Path)
 			if _, err := EncodeView(ctx, fp, view, fileInfo.ExportOptions(tx), tx.Palette); err != nil {
 				return NewCommitError(expr, err.Error())
 			}
 
 			if !tx.Flags.ExportOptions.StripEndingLineBreak && !(fileInfo.Format == option.FIXED && fileInfo.SingleLine) {
+				verifPoint("tx.commit.eol", fileInfo.Path)
 				if _, err := fp.Write([]byte(tx.Flags.ExportOptions.LineBreak.Value())); err != nil {
 					return NewCommitError(expr, err.Error())
 				}
@@ -172,6 +176,7 @@ func (tx *Transaction) Commit(ctx context.Context, scope *ReferenceScope, expr p
 			view, _ := tx.CachedViews.Get(fileInfo.IdentifiedPath())
 
 			fp, _ := view.FileInfo.Handler.FileForUpdate()
+			verifPoint("tx.commit.truncate", fileInfo.Path)
 			if err := fp.Truncate(0); err != nil {
 				return NewSystemError(err.Error())
 			}
@@ -179,11 +184,13 @@ func (tx *Transaction) Commit(ctx context.Context, scope *ReferenceScope, expr p
 				return NewSystemError(err.Error())
 			}
 
+			verifPoint("tx.commit.encode", fileInfo.Path)
 			if _, err := EncodeView(ctx, fp, view, fileInfo.ExportOptions(tx), tx.Palette); err != nil {
 				return NewCommitError(expr, err.Error())
 			}
 
 			if !tx.Flags.ExportOptions.StripEndingLineBreak && !(fileInfo.Format == option.FIXED && fileInfo.SingleLine) {
+				verifPoint("tx.commit.eol", fileInfo.Path)
 				if _, err := fp.Write([]byte(tx.Flags.ExportOptions.LineBreak.Value())); err != nil {
 					return NewCommitError(expr, err.Error())
 				}
@@ -194,6 +201,7 @@ func (tx *Transaction) Commit(ctx context.Context, scope *ReferenceScope, expr p
 	}
 
 	for _, f := range createFileInfo {
+		verifPoint("tx.commit.swap", f.Path)
 		if err := tx.FileContainer.Commit(f.Handler); err != nil {
 			return NewCommitError(expr, err.Error())
 		}
@@ -201,6 +209,7 @@ func (tx *Transaction) Commit(ctx context.Context, scope *ReferenceScope, expr p
 		tx.LogNotice(fmt.Sprintf("Commit: file %q is created.", f.Path), tx.Flags.Quiet)
 	}
 	for _, f := range updateFileInfo {
+		verifPoint("tx.commit.swap", f.Path)
 		if err := tx.FileContainer.Commit(f.Handler); err != nil {
 			return NewCommitError(expr, err.Error())
 		}
@@ -208,15 +217,18 @@ func (tx *Transaction) Commit(ctx context.Context, scope *ReferenceScope, expr p
 		tx.LogNotice(fmt.Sprintf("Commit: file %q is updated.", f.Path), tx.Flags.Quiet)
 	}
 
+	verifPoint("tx.commit.temptables", "")
 	msglist := scope.StoreTemporaryTable(tx.Session, tx.UncommittedViews.UncommittedTempViews())
 	if 0 < len(msglist) {
 		tx.LogNotice(strings.Join(msglist, "\n"), tx.quietForTemporaryViews(expr))
 	}
 	tx.UncommittedViews.Clean()
 	tx.UnlockStdin()
+	verifPoint("tx.commit.release", "")
 	if err := tx.ReleaseResources(); err != nil {
 		return NewCommitError(expr, err.Error())
 	}
+	verifPoint("tx.commit.end", "")
 	return nil
 }
 
@@ -224,6 +236,7 @@ func (tx *Transaction) Rollback(scope *ReferenceScope, expr parser.Expression) e
 	tx.operationMutex.Lock()
 	defer tx.operationMutex.Unlock()
 
+	verifPoint("tx.rollback.begin", "")
 	createdFiles, updatedFiles := tx.UncommittedViews.UncommittedFiles()
 
 	if 0 < len(createdFiles) {
